@@ -70,10 +70,21 @@ _WARMUP = {'id': 'warmup', 'text': [['r', 'a']], 'cyclic': False,
            'usr': {'a': {'has': False, 'v': []}, 'b': {'has': False, 'v': []}}}
 
 
+def _VmSize():
+  try:
+    with open('/proc/self/statm') as f:
+      return int(f.read().split()[0]) * resource.getpagesize()
+  except Exception:  # pylint: disable=broad-except
+    return 0
+
+
 def _LimitWorker():
-  resource.setrlimit(resource.RLIMIT_AS, (MEM_LIMIT, MEM_LIMIT))
-  signal.signal(signal.SIGPROF, _Alarm)
+  """1 GiB of address space on top of what the forked worker starts with."""
   impl.Mods()
+  strlit._QL('sqlite', {})
+  limit = _VmSize() + MEM_LIMIT
+  resource.setrlimit(resource.RLIMIT_AS, (limit, limit))
+  signal.signal(signal.SIGPROF, _Alarm)
   for d in strlit.DIALECTS:      # imports, caches: not on a case's clock
     _UnitCase((_WARMUP, d, 30))
 
@@ -183,7 +194,7 @@ def _PipeCase(arg):
         program = m['universe'].LogicaProgram(rules, user_flags=user)
         program.FormattedPredicateSql(pred)
         return program.execution
-      st, ex = _Guarded(Go, timeout + 20)
+      st, ex = _Guarded(Go, timeout + (3 if case.get('grows') else 30))
       out = ''
       detail = ex if st == 'internal' else ''
       if st == 'ok':
